@@ -201,12 +201,11 @@ class CircularRecord(SeqRecord):
                 for part in (loc + index).parts:
                     if part.end >= len(newseq) and part.start >= len(newseq):
                         r = part.start // len(newseq)  # remainder is used to
+                        back = -r * len(newseq)  # (adding keeps open ends: `<5`, `>9`)
                         _newloc.append(
                             FeatureLocation(  # make sure that part.end
-                                start=part.start
-                                - r * len(newseq),  # is always after part.start
-                                end=part.end
-                                - r * len(newseq),  # even on additional end
+                                start=part.start + back,  # is always after part.start
+                                end=part.end + back,  # even on additional end
                                 strand=part.strand,  # overlap
                                 ref=part.ref,
                                 ref_db=part.ref_db,
@@ -214,7 +213,10 @@ class CircularRecord(SeqRecord):
                         )
                     else:
                         _newloc.append(part)
-                newloc = _newloc[0] if len(_newloc) == 1 else CompoundLocation(_newloc)
+                if len(_newloc) == 1:
+                    newloc = _newloc[0]
+                else:
+                    newloc = CompoundLocation(_newloc, operator=loc.operator)
             newfeats.append(
                 SeqFeature(
                     location=newloc,
